@@ -5,6 +5,7 @@ import (
 	"fmt"
 	"net"
 	"net/http"
+	"net/http/fcgi"
 	"os"
 	"path/filepath"
 	"sort"
@@ -91,7 +92,7 @@ func orderTable(rep *kit.Report, phase string) {
 
 func main() {
 	rep := kit.NewReport("C09", "exploration",
-		"every block of root + <=3 (thorough 4) lines from a 19-line menu of standard directives (two rewrite and two header lines included) x every permutation of its lines that keeps same-directive lines in relative order x 16 requests; full response (status, header multiset minus Date, decoded body) and access-log line must equal those of the canonically ordered block; plus a table of ~100 documented ordered pairs checked against casket.ValidDirectives(\"http\") before and after a rejected load; distinct_nontrivial = outcome classes")
+		"every block of root + <=3 (thorough 4) lines from a 25-line menu of standard directives (two rewrite and two header lines included) x every permutation of its lines that keeps same-directive lines in relative order x 20 requests; full response (status, header multiset minus Date, decoded body) and access-log line must equal those of the canonically ordered block; plus a table of ~100 documented ordered pairs checked against casket.ValidDirectives(\"http\") before and after a rejected load; distinct_nontrivial = outcome classes")
 	kit.Init()
 	kit.Log.Off.Store(true)
 	base := kit.TempDir("c09")
@@ -113,6 +114,16 @@ func main() {
 		fmt.Fprintf(w, "backend %s", r.URL.Path)
 	}))
 	defer ln.Close()
+	fsock := filepath.Join(base, "f.sock")
+	fln, err := net.Listen("unix", fsock)
+	if err != nil {
+		rep.Broken("listen: %v", err)
+	}
+	go fcgi.Serve(fln, http.HandlerFunc(func(w http.ResponseWriter, r *http.Request) {
+		fmt.Fprintf(w, "responder %s", r.URL.Path)
+	}))
+	defer fln.Close()
+	kit.WriteFile(root, "fc/i.php", "<?php source ?>")
 
 	orderTable(rep, "initial")
 	// a rejected configuration must not disturb the order for later loads
@@ -141,6 +152,12 @@ func main() {
 		"markdown /",
 		"browse /pub",
 		"proxy /api unix:" + sock,
+		"tryfiles {path} {path}.txt /pub/p.txt",
+		"request_id X-Req",
+		"expvar /vars",
+		"push /pub /s.txt",
+		"fastcgi /fc unix:" + fsock + " {\n\t\text .php\n\t\tsplit .php\n\t\tindex i.php\n\t}",
+		"header /fc X-C 3",
 	}
 	canonPos := map[string]int{}
 	for i, d := range casket.ValidDirectives("http") {
@@ -169,6 +186,10 @@ func main() {
 		kit.Get("GET", "/api/x", "a.test:8080"),
 		kit.Get("GET", "/api/missing", "a.test:8080"),
 		kit.Get("GET", "/s", "a.test:8080"),
+		kit.Get("GET", "/fc/i.php", "a.test:8080"),
+		kit.Get("GET", "/fc/", "a.test:8080", "Accept-Encoding: gzip"),
+		kit.Get("GET", "/pub/p.txt", "a.test:8080", "X-Req: 11111111-2222-3333-4444-555555555555"),
+		kit.Get("GET", "/nothing-here", "a.test:8080"),
 	}
 	kit.Parallel(len(subsets), func(si int) bool {
 		if rep.Expired() {
